@@ -98,6 +98,9 @@ def _case(draw, tier):
         "omit": draw(st.lists(st.integers(0, 7), max_size=3)),
         "max_iter": draw(st.sampled_from([3, 6, 12, 25])),
         "entry_pick": draw(st.integers(0, 7)),
+        # a run-time selection (possibly of outputs that a failing or unselected branch never produces) under each on_missing policy
+        "rt_select": draw(st.lists(st.integers(0, 15), min_size=1, max_size=3)) if prob(draw, 0.3) else None,
+        "on_missing": draw(st.sampled_from(["ignore", "warn", "error", "error"])),
         "extra_sched": draw(st.lists(st.lists(st.integers(0, 7), max_size=30), min_size=1, max_size=3)),
         "perm_seed": draw(st.lists(st.integers(0, 50), min_size=2, max_size=4)),
     }
@@ -125,6 +128,10 @@ def _values_for(g, case):
             vals[p] = ("in", p, 1)
     for p, n in (case.get("map_lists") or {}).items():
         vals[p] = [("in", p, j) for j in range(n)]
+    if case.get("rt_select") and g.outputs:
+        outs = sorted(g.outputs)
+        kw["select"] = list(dict.fromkeys(outs[i % len(outs)] for i in case["rt_select"]))
+        kw["on_missing"] = case.get("on_missing", "ignore")
     return vals, kw
 
 
@@ -206,6 +213,8 @@ def check_case(case, ev):
         ev.discard("construct:" + type(e).__name__ + ":" + str(e).split("\n")[0][:50])
         return
     vals, kw = _values_for(g_s, case)
+    if "select" in kw:
+        labels.add("run_time_select:on_missing=" + kw["on_missing"])
     base = run_sync(g_s, vals, max_iterations=mi, error_handling="continue", **kw)
     base_norm = _norm(base, ctx_s)
     if base.status == "raised":
